@@ -6,7 +6,6 @@ import (
 	"encoding/json"
 	"fmt"
 	"net/http"
-	"reflect"
 	"strings"
 	"sync"
 	"time"
@@ -145,8 +144,8 @@ func (w *webSocketClient) forwardWebSocketData(message []byte) error {
 		return nil
 	}
 	if wsMsg.Type == webSocketTypeComplete {
-		reflect.ValueOf(sub.interfaceChan).Close()
-		return nil
+		// mark the subscription as ended and close its channel, once
+		return w.subscriptions.Unsubscribe(wsMsg.ID)
 	}
 
 	return sub.forwardDataFunc(sub.interfaceChan, wsMsg.Payload)
